@@ -224,6 +224,15 @@ impl SegmentedLog {
         if root_dir_fsync {
             // To uphold the guarantees provided by this function we should fsync the directory
             // after a new segment file is created.
+            #[cfg(nomt_verif)]
+            {
+                use std::os::fd::AsRawFd as _;
+                crate::verif::io(
+                    self.root_dir_fd.as_raw_fd(),
+                    crate::verif::Op::DirSync,
+                    "seg.dir_fsync",
+                )?;
+            }
             self.root_dir_fd.sync_all()?;
         }
 
@@ -237,6 +246,8 @@ impl SegmentedLog {
         let new_segment_id = self.gen_segment_id();
         let filename = segment_filename::format(&self.filename_prefix, new_segment_id);
         let path = self.root_dir_path.join(filename);
+        #[cfg(nomt_verif)]
+        crate::verif::io(-1, crate::verif::Op::Create(&path), "seg.create")?;
         let file = OpenOptions::new()
             .create_new(true)
             .append(true)
@@ -309,6 +320,12 @@ impl SegmentedLog {
 
             // Remove the segment file from the file system.
             let filename = segment_filename::format(&self.filename_prefix, oldest_segment.id);
+            #[cfg(nomt_verif)]
+            crate::verif::io(
+                -1,
+                crate::verif::Op::Unlink(&self.root_dir_path.join(&filename)),
+                "seg.unlink_oldest",
+            )?;
             fs::remove_file(self.root_dir_path.join(filename))?;
 
             // Remove the segment from the in-memory list preserving the order.
@@ -360,8 +377,23 @@ impl SegmentedLog {
         while self.segments.len() > seg_index + 1 {
             let filename =
                 segment_filename::format(&self.filename_prefix, self.segments.last().unwrap().id);
+            #[cfg(nomt_verif)]
+            crate::verif::io(
+                -1,
+                crate::verif::Op::Unlink(&self.root_dir_path.join(&filename)),
+                "seg.unlink_recent",
+            )?;
             fs::remove_file(self.root_dir_path.join(filename))?;
             self.segments.pop();
+        }
+        #[cfg(nomt_verif)]
+        {
+            use std::os::fd::AsRawFd as _;
+            crate::verif::io(
+                self.root_dir_fd.as_raw_fd(),
+                crate::verif::Op::DirSync,
+                "seg.dir_fsync_prune",
+            )?;
         }
         self.root_dir_fd.sync_data()?;
 
@@ -390,6 +422,8 @@ impl SegmentedLog {
         let _ = self.head_segment_writer.take();
 
         for segment in &self.segments {
+            #[cfg(nomt_verif)]
+            crate::verif::io(-1, crate::verif::Op::Unlink(&segment.path), "seg.unlink_all")?;
             fs::remove_file(&segment.path)?;
         }
         self.segments.clear();
@@ -591,6 +625,8 @@ impl Recovery {
         }
 
         for segment in nonlive_segments {
+            #[cfg(nomt_verif)]
+            crate::verif::io(-1, crate::verif::Op::Unlink(&segment.path), "seg.unlink_nonlive")?;
             fs::remove_file(segment.path)?;
         }
         Ok(live_segments)
@@ -633,7 +669,17 @@ fn truncate_head_segment(
     };
 
     let mut file = OpenOptions::new().append(true).write(true).open(path)?;
+    #[cfg(nomt_verif)]
+    {
+        use std::os::fd::AsRawFd as _;
+        crate::verif::io(file.as_raw_fd(), crate::verif::Op::SetLen(end), "seg.truncate")?;
+    }
     file.set_len(end)?;
+    #[cfg(nomt_verif)]
+    {
+        use std::os::fd::AsRawFd as _;
+        crate::verif::io(file.as_raw_fd(), crate::verif::Op::Fsync, "seg.truncate_fsync")?;
+    }
     file.sync_data()?;
     file.seek(SeekFrom::Start(end))?;
 
